@@ -44,8 +44,13 @@ PREF = ["Kilo", "Milli", "Mega", "Micro", "Giga", "Nano", "Quetta", "Quecto", "Y
 
 @st.composite
 def case(draw):
-    kind = draw(st.sampled_from(["lib", "lib", "gen", "gen", "algebra"]))
+    kind = draw(st.sampled_from(["lib", "lib", "gen", "gen", "algebra", "limit", "limit"]))
     c = {"kind": kind, "T": draw(st.sampled_from(reps.ALL_REPS))}
+    if kind == "limit":
+        # constant whose ratio to the target unit is constructed to land next to a limit of T (see c11.near_limit)
+        c.update({"kind": "gen", "t": draw(units.tree(max_leaves=2, allow_frac=False)), "cmag": draw(c11.near_limit(c["T"])), "cscale": [1, 1], "cpi": 0, "bigprime": None,
+                  "tscale": list(draw(st.sampled_from([(1, 1), (1, 1), (3, 1), (1, 7), (1000, 1)])))})
+        return c
     if kind == "lib":
         c["const"] = draw(st.sampled_from(sorted(CONSTS)))
         c["tscale"] = list(draw(st.sampled_from(SCALES + [(10 ** 15, 1), (1, 10 ** 15), (10 ** 29, 1), (10 ** 42, 1), (1, 10 ** 28)])))
@@ -82,6 +87,10 @@ def setup(c):
     cexpr = units.mag_cxx(c["cscale"][0], c["cscale"][1], (c["cpi"], 1))
     if c["cpi"]:
         cm = model.mmul(cm, {"pi": F(c["cpi"])})
+    if c.get("cmag") is not None:
+        # the target scale is folded into the constant so that the RATIO is the constructed magnitude
+        cm = model.mmul(c11.decode(c["cmag"]), model.mag_of(c["tscale"][0], c["tscale"][1]))
+        cexpr = "(%s * %s)" % (c11.route_expr(c11.decode(c["cmag"])), units.mag_cxx(c["tscale"][0], c["tscale"][1]))
     if c["bigprime"]:
         cm = model.mmul(cm, {c["bigprime"]: F(1)})
         cexpr = "(%s * au::Magnitude<au::Prime<%dull>>{})" % (cexpr, c["bigprime"])
